@@ -509,6 +509,8 @@ pub struct OpCase<'a> {
     pub keys: &'a dyn Fn(usize, usize) -> u32,
     /// also run the op on an owned array holding the same cells and compare (Copy element types only)
     pub twin: bool,
+    /// spare capacity to give an owned parent before the operation (0 = exact capacity)
+    pub spare: usize,
 }
 
 struct Runner<'a, T> {
@@ -544,6 +546,10 @@ pub fn run_op<T: Elem + Clone + Ord>(ctx: &mut Ctx, oc: &OpCase<'_>) -> Outcome 
     let opn = oc.op.kind();
     let (pc, pr) = oc.pshape;
     let (mut parent, pg) = build::<T>(pc, pr, oc.keys);
+    if oc.spare > 0 {
+        // capacity state as left behind by earlier operations: paths that stage data in spare capacity
+        parent.reserve_exact(oc.spare);
+    }
     let wg0 = pg.window(oc.win.0, oc.win.1).expect("harness: window must be valid");
     let (wc, wr) = wg0.size();
     let nv = n_vals(&oc.op, wc.max(1), wr.max(1));
